@@ -30,6 +30,10 @@ func C15(env *Env) {
 	env.c15Device()
 	env.c15Provider()
 	env.c15Dispatch()
+	// no device outcome crashes the client
+	env.safetyOf("C15", "client", "GetRawQuote")
+	env.safetyOf("C15", "client", "GetQuote", "client.GetRawQuote")
+	r.Floor("C15/B1", 3)
 	r.Floor("C15/REQ1", 3)
 	r.Floor("C15/REQ2", 6)
 	r.Floor("C15/GATE", 7)
